@@ -1,6 +1,6 @@
 (* Correspondence evaluators for C19.  Result code per case (Base.Corr.code): 0 = the implementation agrees with
    the model and satisfies the declarative oracle; 1 = differs from the model only; >= 2 = violates the oracle. *)
-From Coq Require Import List NArith Bool.
+From Coq Require Import List NArith ZArith Bool.
 From LE Require Import Base.Corr Sync.PeerSelect Sync.Handlers.
 Import ListNotations.
 Local Open Scope N_scope.
@@ -131,9 +131,13 @@ From LE Require Import Sync.Converge.
 (* observation: chain after, peer banned, Sync returned an error, temp blocks (height, code) after, a block at or
    below the finalized height changed, the whole database equals the one before *)
 Definition sync_obs : Type := list N * bool * bool * list (N * N) * bool * bool.
-(* fast sync?, chain before, temp blocks (height, code) before, finalized height, peer's common-block answer, delivered blocks, ending (0 ok, 1 error,
-   2 statelessly invalid block), valid links (parent, block), target height, 2 * validators, observation *)
-Definition sync_case : Type := bool * list N * list (N * N) * N * option N * list N * N * list (N * N) * N * N * sync_obs.
+(* ground truth of the scenario: the peers follow the protocol, the best peer's tip has priority over ours, height of
+   the last block shared with it, its chain, the sender of the block is the best peer *)
+Definition sync_truth : Type := bool * bool * N * list N * bool.
+(* own tip height, height of the received block, number of validators, current slot - finalized slot; chain before,
+   temp blocks (height, code) before, finalized height, peer's common-block answer, delivered blocks, ending (0 ok,
+   1 error, 2 statelessly invalid block), valid links (parent, block), ground truth, observation *)
+Definition sync_case : Type := N * N * N * Z * list N * list (N * N) * N * option N * list N * N * list (N * N) * sync_truth * sync_obs.
 
 Definition link_valid (links : list (N * N)) (c : list N) (b : N) : bool :=
   match rev c with
@@ -151,35 +155,51 @@ Definition oN_eqb (a b : option N) : bool :=
   match a, b with Some x, Some y => x =? y | None, None => true | _, _ => false end.
 
 Definition check_sync (k : sync_case) : N :=
-  let '(fast, before, temp0, fin, common, delivered, e, links, th, r2, o) := k in
+  let '(own_h, block_h, nv, gap, before, temp0, fin, common, delivered, e, links, tr, o) := k in
+  let '(honest, better, fork_h, peerchain, sender_is_best) := tr in
   let '(after, banned_o, err_o, temp_o, lowdel, dbeq) := o in
   let n0 := {| chain := before; temp := map (fun kv => (N.to_nat (fst kv), snd kv)) temp0; finalized := N.to_nat fin; banned := false |} in
   let en := match e with 0 => EndOk | 1 => EndErr | _ => EndInvalid end in
-  let '(n', out) := if fast then fast_sync (link_valid links) false true n0 common delivered en (N.to_nat th) (N.to_nat r2)
-                    else block_sync (link_valid links) n0 common delivered en in
+  let r2 := 2 * nv in
+  let m := choose_sync own_h block_h nv true gap in
+  let '(n', out) := match m with
+                    | MFast => fast_sync (link_valid links) false true n0 common delivered en (N.to_nat block_h) (N.to_nat r2)
+                    | MBlock => block_sync (link_valid links) n0 common delivered en
+                    | MNone => (n0, Synced)            (* "Sync method cannot be determined": nil, nothing done *)
+                    end in
   let synced := match out with Synced => true | _ => false end in
   let hs := seq 0 (length before + length delivered + 2) in
   let agree :=
     list_eqb after (chain n') && Bool.eqb banned_o (Converge.banned n') && Bool.eqb err_o (negb synced) &&
     forallb (fun h => oN_eqb (obs_temp_lookup h temp_o) (Converge.lookup h (Converge.temp n'))) hs in
-  (* declarative oracle: the three clauses of the property text *)
+  (* declarative oracle, clause 1 (from the peers' answers): valid delivered blocks end on the peer's chain; invalid
+     blocks in fast sync: restored, equal database, banned *)
   let f := N.to_nat fin in
+  let fast := match m with MFast => true | _ => false end in
   let keep_final := negb lowdel && list_eqb (firstn (S f) after) (firstn (S f) before) in
-  let spec :=
-    match common with
-    | Some cid =>
+  let spec1 :=
+    match m, common with
+    | MNone, _ => true
+    | _, Some cid =>
         match Converge.index_of cid before with
         | Some h =>
             let base := firstn (S h) before in
-            let within := negb fast || (Nat.leb (length before - 1 - h) (N.to_nat r2) && Nat.leb (N.to_nat th - h) (N.to_nat r2)) in
+            let within := negb fast || (Nat.leb (length before - 1 - h) (N.to_nat r2) && Nat.leb (N.to_nat block_h - h) (N.to_nat r2)) in
             if Nat.leb f h && within && (e =? 0) then
               if chain_valid links base delivered
-              then list_eqb after (base ++ delivered) && negb err_o                 (* honest, better, valid: ends on the peer's chain *)
-              else if fast then list_eqb after before && banned_o && err_o && dbeq  (* invalid blocks in fast sync: restored, banned *)
+              then list_eqb after (base ++ delivered) && negb err_o
+              else if fast then list_eqb after before && banned_o && err_o && dbeq
               else true
             else true
         | None => true
         end
-    | None => true
+    | _, None => true
     end in
-  code agree (spec && keep_final).
+  (* clause 2 (ground truth, independent of what was answered): honest peers, the best peer's chain has priority, the
+     fork point is not below the finalized height and a sync mechanism applies => the node ends on that chain *)
+  let close := abs_diff own_h block_h <=? r2 in
+  let applies :=
+    if close then sender_is_best && (own_h <=? fork_h + r2 - 2) && (block_h <=? fork_h + r2)
+    else (3 * Z.of_N nv <? gap)%Z in
+  let spec2 := negb (honest && better && (fin <=? fork_h) && applies) || (list_eqb after peerchain && negb err_o) in
+  code agree (spec1 && spec2 && keep_final).
